@@ -2,6 +2,7 @@ package engine
 
 import (
 	"reflect"
+	"strings"
 
 	"github.com/uber-go/gopatch/internal/zzverif/nd"
 )
@@ -21,6 +22,14 @@ var c05Cases = []faCase{
 		patch: "@@\nvar T identifier\n@@\n-type T struct{}\n+type T struct{ mu sync.Mutex }\n",
 		minus: "package pkg\n\nimport \"sync\"\n\nvar a = 1\n\n⟦type «T:Box» struct{}⟧\n\nfunc (b *Box) M() {}\n\ntype (\n\tOther int\n\tThird = Other\n)\n\n⟦type «T:Bag» struct{}⟧\n\nvar z sync.Mutex\n",
 		plus:  "package pkg\n\nimport \"sync\"\n\nvar a = 1\n\n⟦type «T» struct{ mu sync.Mutex }⟧\n\nfunc (b *Box) M() {}\n\ntype (\n\tOther int\n\tThird = Other\n)\n\n⟦type «T» struct{ mu sync.Mutex }⟧\n\nvar z sync.Mutex\n"},
+	{name: "decl-pattern-adds-import",
+		patch: "@@\nvar f identifier\n@@\n+import \"sync\"\n\n-func f() {}\n+func f() { var mu sync.Mutex; _ = mu }\n",
+		minus: "package pkg\n\nfunc first() int { return 1 }\n\n⟦func «f:foo»() {}⟧\n\nvar mid = \"m\"\n\n⟦func «f:bar»() {}⟧\n\nfunc last() { _ = 0 }\n",
+		plus:  "package pkg\n\nimport \"sync\"\n\nfunc first() int { return 1 }\n\n⟦func «f»() { var mu sync.Mutex; _ = mu }⟧\n\nvar mid = \"m\"\n\n⟦func «f»() { var mu sync.Mutex; _ = mu }⟧\n\nfunc last() { _ = 0 }\n"},
+	{name: "decl-pattern-adds-second-import",
+		patch: "@@\nvar f identifier\n@@\n+import \"sync\"\n\n-func f() {}\n+func f() { var mu sync.Mutex; _ = mu }\n",
+		minus: "package pkg\n\nimport \"os\"\n\nfunc first() int { return len(os.Args) }\n\n⟦func «f:foo»() {}⟧\n\nfunc last() { _ = 0 }\n",
+		plus:  "package pkg\n\nimport (\n\t\"os\"\n\t\"sync\"\n)\n\nfunc first() int { return len(os.Args) }\n\n⟦func «f»() { var mu sync.Mutex; _ = mu }⟧\n\nfunc last() { _ = 0 }\n"},
 	{name: "args-with-closures",
 		patch: "@@\nvar a, b expression\n@@\n-swap(a, b)\n+swap(b, a)\n",
 		minus: "package pkg\n\nvar t = table{\n\t{name: \"x\", run: func() int { return ⟦swap(«a:1», «b:func() int { return 2 }()»)⟧ }},\n\t{name: \"y\", run: nil},\n}\n\nfunc g() {\n\tfor i := 0; i < 3; i++ {\n\t\tfunc(j int) {\n\t\t\th(j, ⟦swap(«a:j», «b:i»)⟧, j)\n\t\t}(i)\n\t}\n}\n",
@@ -38,6 +47,7 @@ func VerifC05Preserve() {
 		r.symboliseSite(k)
 		nd.Assume(r.want[k]) // every site is an instance
 	}
+	faRestSkipImports = strings.Contains(c.patch, "import ")
 	r.symboliseRest()
 	ch := r.prog.Changes[0]
 	d, ok := ch.Match(r.file)
